@@ -65,7 +65,7 @@ def encodeUrl (e : Env) (s : Str) : R Url := do
         | none => if Gen.schemeRequiresHost.contains p.scheme then .error .valueError else pure [] : R Str)
       let host1 ← encodeHost e.o host0 false
       -- a bracketed host that is not an IPv6 address keeps the brackets the input had
-      let host := if mem 91 p.netloc && !mem 91 host1 then [91] ++ host1 ++ [93] else host1
+      let host := if mem 91 (rpartition 64 p.netloc).2.2 && !mem 91 host1 then [91] ++ host1 ++ [93] else host1
       let rawHost := if mem 91 host then (host.drop 1).dropLast else host
       if np.password.isNone && np.user.isNone then
         let netloc := match np.port with
